@@ -93,6 +93,49 @@ impl J {
 }
 
 // ---------------------------------------------------------------- helpers
+
+/// bytes of a small constant allocation; follows one level of (fat) pointer indirection
+fn alloc_bytes<'tcx>(tcx: TyCtxt<'tcx>, alloc_id: mir::interpret::AllocId, offset: usize, depth: usize) -> Option<Vec<u8>> {
+    let ga = tcx.try_get_global_alloc(alloc_id)?;
+    let mir::interpret::GlobalAlloc::Memory(m) = ga else { return None };
+    let a = m.inner();
+    let len = a.len();
+    if offset > len || len > 4096 {
+        return None;
+    }
+    let ptrs = a.provenance().ptrs();
+    if ptrs.is_empty() {
+        let bytes = a.inspect_with_uninit_and_ptr_outside_interpreter(offset..len);
+        return Some(bytes.to_vec());
+    }
+    if depth == 0 {
+        return None;
+    }
+    // (fat) pointer at `offset`: [ptr: usize][len: usize]?
+    for (off, prov) in ptrs.iter() {
+        if off.bytes() as usize == offset {
+            let raw = a.inspect_with_uninit_and_ptr_outside_interpreter(0..len);
+            let psz = tcx.data_layout.pointer_size().bytes() as usize;
+            let mut tgt_off = 0usize;
+            if offset + psz <= len {
+                let mut b = [0u8; 8];
+                b[..psz.min(8)].copy_from_slice(&raw[offset..offset + psz.min(8)]);
+                tgt_off = u64::from_le_bytes(b) as usize;
+            }
+            let inner = alloc_bytes(tcx, prov.alloc_id(), tgt_off, depth - 1)?;
+            if offset + 2 * psz <= len {
+                let mut b = [0u8; 8];
+                b[..psz.min(8)].copy_from_slice(&raw[offset + psz..offset + psz + psz.min(8)]);
+                let n = u64::from_le_bytes(b) as usize;
+                if n <= inner.len() {
+                    return Some(inner[..n].to_vec());
+                }
+            }
+            return Some(inner);
+        }
+    }
+    None
+}
 struct Cx<'tcx> {
     tcx: TyCtxt<'tcx>,
 }
@@ -256,27 +299,17 @@ impl<'tcx> Cx<'tcx> {
                 ConstValue::Scalar(mir::interpret::Scalar::Ptr(ptr, _)) => {
                     let (prov, off) = ptr.prov_and_relative_offset();
                     let aid = prov.alloc_id();
-                    if let Some(ga) = tcx.try_get_global_alloc(aid) {
-                        if let mir::interpret::GlobalAlloc::Memory(m) = ga {
-                            let a = m.inner();
-                            let len = a.len();
-                            let o0 = off.bytes() as usize;
-                            if len <= 64 && o0 <= len && a.provenance().ptrs().is_empty() {
-                                let bytes = a.inspect_with_uninit_and_ptr_outside_interpreter(o0..len);
-                                o.push(("ref_bytes", J::Arr(bytes.iter().map(|b| J::Int(*b as i128)).collect())));
-                            }
-                        } else if let mir::interpret::GlobalAlloc::Static(d) = ga {
-                            o.push(("static", s(self.path(d))));
+                    if let Some(bytes) = alloc_bytes(tcx, aid, off.bytes() as usize, 2) {
+                        if bytes.len() <= 256 {
+                            o.push(("ref_bytes", J::Arr(bytes.iter().map(|b| J::Int(*b as i128)).collect())));
                         }
+                    } else if let Some(mir::interpret::GlobalAlloc::Static(d)) = tcx.try_get_global_alloc(aid) {
+                        o.push(("static", s(self.path(d))));
                     }
                 }
                 ConstValue::Indirect { alloc_id, offset } => {
-                    if let Some(mir::interpret::GlobalAlloc::Memory(m)) = tcx.try_get_global_alloc(alloc_id) {
-                        let a = m.inner();
-                        let len = a.len();
-                        let o0 = offset.bytes() as usize;
-                        if len <= 64 && o0 <= len && a.provenance().ptrs().is_empty() {
-                            let bytes = a.inspect_with_uninit_and_ptr_outside_interpreter(o0..len);
+                    if let Some(bytes) = alloc_bytes(tcx, alloc_id, offset.bytes() as usize, 2) {
+                        if bytes.len() <= 256 {
                             o.push(("bytes", J::Arr(bytes.iter().map(|b| J::Int(*b as i128)).collect())));
                         }
                     }
@@ -669,12 +702,8 @@ impl<'tcx> Cx<'tcx> {
                                     }
                                 }
                                 ConstValue::Indirect { alloc_id, offset } => {
-                                    if let Some(mir::interpret::GlobalAlloc::Memory(m)) = tcx.try_get_global_alloc(alloc_id) {
-                                        let a = m.inner();
-                                        let len = a.len();
-                                        let o0 = offset.bytes() as usize;
-                                        if len <= 64 && o0 <= len && a.provenance().ptrs().is_empty() {
-                                            let bytes = a.inspect_with_uninit_and_ptr_outside_interpreter(o0..len);
+                                    if let Some(bytes) = alloc_bytes(tcx, alloc_id, offset.bytes() as usize, 2) {
+                                        if bytes.len() <= 256 {
                                             o.push(("bytes", J::Arr(bytes.iter().map(|b| J::Int(*b as i128)).collect())));
                                         }
                                     }
